@@ -312,6 +312,24 @@ where
         self.min_store.change_wyhash_seed();
         self.seed = self.seed_rng.next_u64();
     }
+
+    /// verification hook: (values, indices) of the store, m blocks of l entries
+    #[cfg(probminhash_verif)]
+    pub fn verif_store(&self) -> (Vec<f64>, Vec<u64>) {
+        (self.min_store.values.clone(), self.min_store.indices.clone())
+    }
+
+    /// verification hook: pin the per-instance seed entering the pair generators
+    #[cfg(probminhash_verif)]
+    pub fn verif_set_seed(&mut self, seed: u64) {
+        self.seed = seed;
+    }
+
+    /// verification hook: read the per-instance seed and the wyhash seed
+    #[cfg(probminhash_verif)]
+    pub fn verif_get_seeds(&self) -> (u64, u64) {
+        (self.seed, self.min_store.wyhash_seed)
+    }
 } // end of impl ProbOrdMinHash2
 
 //============================================================================
